@@ -401,6 +401,8 @@ pub struct QFlushScn {
     pub cap: usize,
     /// build through the builder with an error handler configured
     pub handler: bool,
+    /// bounded spy channel behind the buffered sink: writes are refused while it is full
+    pub spyq: Option<usize>,
     pub qcap: Option<usize>,
     pub prog: String,
     pub text: String,
@@ -410,6 +412,7 @@ pub fn qflush_scenario(spec: &crate::Spec) -> QFlushScn {
     QFlushScn {
         cap: spec.usize("cap", 16),
         handler: spec.usize("h", 0) == 1,
+        spyq: spec.opt_usize("sq"),
         qcap: spec.opt_usize("qcap"),
         prog: spec.str("prog", "EEF"),
         text: spec.raw.clone(),
@@ -467,7 +470,7 @@ impl Scenario for QFlushScn {
         let sh2 = sh.clone();
         let body = Box::new(move || {
             let sh = sh2;
-            let (rx, spy) = BufferedSpyMetricSink::with_capacity(None, Some(scn.cap));
+            let (rx, spy) = BufferedSpyMetricSink::with_capacity(scn.spyq, Some(scn.cap));
             let logging = Logging { inner: spy, sh: sh.clone() };
             let q = if scn.handler {
                 let mut b = cadence::QueuingMetricSink::builder().with_error_handler(|_e| {});
@@ -521,6 +524,7 @@ impl Scenario for QFlushScn {
             let seen = sh.wire.lock().unwrap().len();
             sh.log.lock().unwrap().push(QEv::Final { seen });
         });
+        let refusing = self.spyq.is_some();
         let judge = Box::new(move |end: &EndState| {
             let log = sh.log.lock().unwrap().clone();
             let wire = sh.wire.lock().unwrap().clone();
@@ -555,7 +559,13 @@ impl Scenario for QFlushScn {
                             flags.push("flush-after-inner-emit");
                         }
                     }
-                    QEv::Flush { ok: false, .. } => br(&mut out, &["C06"], "queue-flush-failed", "client.flush() through the queuing sink failed without any socket failure".into()),
+                    QEv::Flush { ok: false, .. } => {
+                        if refusing {
+                            flags.push("flush-refused-by-full-channel");
+                        } else {
+                            br(&mut out, &["C06"], "queue-flush-failed", "client.flush() through the queuing sink failed without any socket failure".into());
+                        }
+                    }
                     QEv::Final { seen } => {
                         let have = lines_upto(*seen);
                         // one producer: its metrics leave the buffered sink in program order
@@ -567,7 +577,8 @@ impl Scenario for QFlushScn {
                         }
                         for (m, _) in &inner {
                             let n = have.iter().filter(|x| *x == m).count();
-                            if n != 1 {
+                            // with a refusing channel the last write (at drop) may legitimately be lost
+                            if n > 1 || (n == 0 && !refusing) {
                                 br(&mut out, &["C06", "C09", "C12"], "queue-drop-conservation", format!("after the client was dropped and everything came to rest, {:?} appears {} times on the wire ({:?})", m, n, have));
                             }
                         }
